@@ -1,0 +1,9 @@
+//go:build !verif
+
+package cluster
+
+import "time"
+
+func verifYield(label string, key any) {}
+
+func verifTimer(shardDir string, t *time.Timer) *time.Timer { return t }
